@@ -101,7 +101,21 @@ fn handle(req: &Value) -> Value {
 		"genkey" => {
 			let alg = alg_by_name(req["alg"].as_str().unwrap_or("")).ok_or("unknown algorithm")?;
 			let k = rcgen::KeyPair::generate_for(alg).map_err(|e| e.to_string())?;
-			Ok(json!({"pk8": hex(&k.serialize_der()), "pem": k.serialize_pem(), "spki": hex(&k.public_key_der()), "alg": alg_name(k.algorithm())}))
+			// the generated key signs here, before it is ever saved: the other build checks the signature
+			let csr = rcgen::CertificateParams::default().serialize_request(&k).map_err(|e| e.to_string())?;
+			Ok(json!({"pk8": hex(&k.serialize_der()), "pem": k.serialize_pem(), "spki": hex(&k.public_key_der()), "alg": alg_name(k.algorithm()), "csr": hex(csr.der())}))
+		},
+		#[cfg(feature = "crypto")]
+		"importcsr" => {
+			let der = unhex(req["der"].as_str().unwrap_or(""))?;
+			let r = no_panic(|| rcgen::CertificateSigningRequestParams::from_der(&der.clone().into()))?;
+			Ok(match r {
+				Ok(p) => {
+					use rcgen::PublicKeyData;
+					json!({"accepted": true, "alg": alg_name(p.public_key.algorithm()), "raw": hex(p.public_key.der_bytes())})
+				},
+				Err(e) => json!({"accepted": false, "why": e.to_string()}),
+			})
 		},
 		#[cfg(feature = "crypto")]
 		"loadkey" => {
@@ -281,6 +295,26 @@ pub fn check_tbs(a: &Art, info: &mut CaseInfo) -> Result<(), String> {
 		if v["verified"] == json!(false) {
 			return Err("a signature made by the ring build does not verify with aws-lc-rs".into());
 		}
+		#[cfg(feature = "crypto")]
+		if let Art::Csr(_) = a {
+			// the request made here is offered to the other build's parser: same verdict, same algorithm
+			use rcgen::PublicKeyData;
+			let mine = rcgen::CertificateSigningRequestParams::from_der(&_full.clone().into());
+			let theirs = ask(aws, &json!({"op": "importcsr", "der": hex(&_full)}))?;
+			if theirs["ok"] != json!(true) {
+				return Err(format!("INTERNAL: importcsr failed in the aws-lc-rs child: {}", theirs["err"]));
+			}
+			match (&mine, theirs["accepted"] == json!(true)) {
+				(Ok(p), true) => {
+					if Some(alg_name(p.public_key.algorithm()).as_str()) != theirs["alg"].as_str() {
+						return Err(format!("the builds read different key algorithms from the same request: ring {} / aws-lc-rs {}", alg_name(p.public_key.algorithm()), theirs["alg"]));
+					}
+				},
+				(Err(_), false) => {},
+				(Ok(_), false) => return Err(format!("a request the ring build parses is refused by the aws-lc-rs build: {}", theirs["why"])),
+				(Err(e), true) => return Err(format!("a request the aws-lc-rs build parses is refused by the ring build: {e}")),
+			}
+		}
 		if with_nc {
 			let r = ask(nc, &req)?;
 			if r["ok"] != json!(true) {
@@ -307,7 +341,8 @@ pub struct KeyXchg {
 
 #[cfg(feature = "crypto")]
 pub fn check_keyx(k: &KeyXchg, info: &mut CaseInfo) -> Result<(), String> {
-	let names = ["ECDSA_P256_SHA256", "ECDSA_P384_SHA384", "ED25519"];
+	// RSA keys can only be generated by the aws-lc-rs build
+	let names: &[&str] = if k.ring_to_aws { &["ECDSA_P256_SHA256", "ECDSA_P384_SHA384", "ED25519"] } else { &["ECDSA_P256_SHA256", "ECDSA_P384_SHA384", "ED25519", "RSA_SHA256", "RSA_SHA384", "RSA_SHA512"] };
 	let name = names[k.alg as usize % names.len()];
 	info.nontrivial = true;
 	info.class(format!("{}:{}:{}", name, if k.ring_to_aws { "ring->aws" } else { "aws->ring" }, if k.pem { "pem" } else { "der" }));
@@ -337,8 +372,24 @@ pub fn check_keyx(k: &KeyXchg, info: &mut CaseInfo) -> Result<(), String> {
 				rcgen::KeyPair::try_from(unhex(r["pk8"].as_str().unwrap_or(""))?.as_slice())
 			}
 			.map_err(|e| format!("a {name} key exported by the aws-lc-rs build does not load in the ring build: {e}"))?;
-			if Some(hex(&key.public_key_der()).as_str()) != r["spki"].as_str() || alg_name(key.algorithm()) != name {
+			let rsa = name.starts_with("RSA_");
+			// (auto-detection labels every RSA key RSA_SHA256)
+			if Some(hex(&key.public_key_der()).as_str()) != r["spki"].as_str() || (!rsa && alg_name(key.algorithm()) != name) {
 				return Err(format!("a {name} key exported by aws-lc-rs loads in ring with a different public key or algorithm"));
+			}
+			// what the freshly generated key signed over there verifies here under the declared algorithm
+			let csr = unhex(r["csr"].as_str().unwrap_or(""))?;
+			let (d, _) = decode_csr(&csr)?;
+			let (fam, digest) = crate::props::c06::classify_alg(alg).ok_or("unknown algorithm")?;
+			let as_spec = KeySpec { alg: fam, idx: 0, rsa_hash: match name { "RSA_SHA384" => RsaHash::Sha384, "RSA_SHA512" => RsaHash::Sha512, _ => RsaHash::Sha256 }, remote: false };
+			if d.outer_alg.raw != keys::rfc_sig_alg_id(&as_spec) {
+				return Err(format!("a request signed by a {name} key generated in the aws-lc-rs build declares another signature algorithm"));
+			}
+			if !keys::openssl_verify(&d.spki.raw, digest.map(|x| x.md()), &d.cri_raw, &d.signature)? {
+				return Err(format!("a request signed by a {name} key freshly generated in the aws-lc-rs build does not verify under the declared algorithm"));
+			}
+			if rcgen::CertificateSigningRequestParams::from_der(&csr.into()).is_err() {
+				return Err(format!("a request signed by a {name} key freshly generated in the aws-lc-rs build is refused by the ring build"));
 			}
 		}
 		Ok(())
